@@ -172,7 +172,7 @@ def conv(
         if isinstance(padding, int):
             margin = (padding,) * kernel.ndim
             padding = PaddingMode.ZEROS
-        elif isinstance(padding, Sequence):
+        elif isinstance(padding, Sequence) and not isinstance(padding, str):
             margin = padding
             padding = PaddingMode.ZEROS
         else:
@@ -201,7 +201,7 @@ def conv(
         if isinstance(padding, int):
             margin = (padding,) * len(kernel)
             padding = PaddingMode.ZEROS
-        elif isinstance(padding, Sequence):
+        elif isinstance(padding, Sequence) and not isinstance(padding, str):
             margin = padding
             padding = PaddingMode.ZEROS
         else:
